@@ -26,7 +26,12 @@ ASSUMPTIONS = ["popcount reference is Python's int.bit_count",
 
 
 def popcount_arr(x):
-    return np.array([int(v).bit_count() for v in np.asarray(x).ravel()],
+    x = np.asarray(x)
+    if x.size > 5000:            # byte-table popcount for long arrays (still independent)
+        b = np.ascontiguousarray(x.astype(np.uint64)).view(np.uint8).reshape(x.size, 8)
+        table = np.array([bin(i).count("1") for i in range(256)], dtype=np.int64)
+        return table[b].sum(axis=1).reshape(x.shape)
+    return np.array([int(v).bit_count() for v in x.ravel()],
                     dtype=np.int64).reshape(np.shape(x))
 
 
@@ -276,8 +281,9 @@ def case_codes_random(ctx, rng, idx):
 def case_biterrors(ctx, rng, idx):
     bits = int(rng.choice([1, 2, 3, 8, 12, 16, 31, 32, 33, 48, 62]))
     dtype = np.int32 if bits < 31 and rng.random() < 0.3 else np.int64
-    kind = ["0d", "1d", "2d", "3d", "pyint", "1d-empty"][idx % 6]
+    kind = ["0d", "1d", "2d", "3d", "pyint", "1d-empty", "1d-long"][idx % 7]
     shape = {"0d": (), "1d": (int(rng.integers(1, 50)),),
+             "1d-long": (int(rng.integers(60000, 140000)),),
              "2d": (int(rng.integers(1, 6)), int(rng.integers(1, 8))),
              "3d": (int(rng.integers(1, 4)), int(rng.integers(1, 4)),
                     int(rng.integers(1, 5))),
